@@ -124,11 +124,19 @@ class CursFeatureWriter(BaseFeatureWriter):
 
         return lookup
 
-    def _getAnchors(self, glyphName, entryName, exitName):
+    def _getGlyphAnchor(self, glyph, anchorName):
+        # take the anchor of the (pre-processed) glyph at hand: the glyph of the
+        # same name in the source font has not been through the filters
+        for anchor in glyph.anchors:
+            if anchor.name == anchorName:
+                return self._getAnchor(glyph.name, anchorName, anchor=anchor)
+        return None
+
+    def _getAnchors(self, glyph, entryName, exitName):
         entryAnchor = None
         exitAnchor = None
-        entryAnchorXY = self._getAnchor(glyphName, entryName)
-        exitAnchorXY = self._getAnchor(glyphName, exitName)
+        entryAnchorXY = self._getGlyphAnchor(glyph, entryName)
+        exitAnchorXY = self._getGlyphAnchor(glyph, exitName)
         if entryAnchorXY:
             entryAnchor = ast.Anchor(
                 x=otRoundIgnoringVariable(entryAnchorXY[0]),
@@ -145,7 +153,7 @@ class CursFeatureWriter(BaseFeatureWriter):
         cursiveAnchors = dict()
         statements = []
         for glyph in glyphs:
-            entryAnchor, exitAnchor = self._getAnchors(glyph.name, entryName, exitName)
+            entryAnchor, exitAnchor = self._getAnchors(glyph, entryName, exitName)
             # A glyph can have only one of the cursive anchors (e.g. if it
             # attaches on one side only)
             if entryAnchor or exitAnchor:
